@@ -69,13 +69,14 @@ theorem nonfinite_to_null :
   refine ⟨by rfl, by rfl, by rfl, by rfl⟩
 
 /-- The rich types reach the file in their documented form: a path as its `str()`, dates and times
-as their `isoformat()`, a set as the list of its elements, a complex number as `{"real":..,"imag":..}`,
+as their `isoformat()` (instances of subclasses of the date/time classes too), a set as the list of its elements, a complex number as `{"real":..,"imag":..}`,
 an object known to the caller's `json_default` as whatever that function returns for it; an object
 nobody knows, a non-string key and an aware `time` are refused. -/
 theorem rich_types_documented (ext : Bool) :
     (∀ t, dumpsCP ext (.path t) = dumpsCP ext (.str t))
     ∧ (∀ iso, dumpsCP ext (.date iso) = dumpsCP ext (.str iso))
     ∧ (∀ iso, dumpsCP ext (.time iso) = dumpsCP ext (.str iso))
+    ∧ (∀ iso, dumpsCP ext (.isoSub iso) = dumpsCP ext (.str iso))
     ∧ (∀ xs, dumpsCP ext (.set xs) = dumpsCP ext (.list xs))
     ∧ (∀ re im, dumpsCP ext (.complex re im) = dumpsCP ext (.dict [(.str kReal, .float re), (.str kImag, .float im)]))
     ∧ (∀ p, dumpsCP true (.custom p) = dumpsCP true p)
@@ -83,7 +84,7 @@ theorem rich_types_documented (ext : Bool) :
     ∧ dumpsCP ext .unsupported = .error .unsupported
     ∧ dumpsCP ext .timeTz = .error .timeTz
     ∧ (∀ v kvs, dumpsCP ext (.dict ((.other, v) :: kvs)) = .error .nonStrKey) := by
-  refine ⟨fun _ => rfl, fun _ => rfl, fun _ => rfl, ?_, fun _ _ => rfl, ?_, fun _ => rfl, rfl, rfl, fun _ _ => rfl⟩
+  refine ⟨fun _ => rfl, fun _ => rfl, fun _ => rfl, fun _ => rfl, ?_, fun _ _ => rfl, ?_, fun _ => rfl, rfl, rfl, fun _ _ => rfl⟩
   · intro xs; simp only [dumpsCP, lower]
   · intro p; simp only [dumpsCP, lower, if_true]
 
